@@ -28,7 +28,7 @@ ASSUMPTIONS = [
     'classes live in an importable synthetic module so that pickle can find them',
     'watchers whose callback is a method of an unrelated third object are not generated',
 ]
-REQUIRED = {'copies': 1200, 'divergence_ops': 5000, 'copies_with_subobject': 400, 'pickle_copies': 800, 'slot_only_subobject_dependency_cases': 100, 'copies_inside_trigger_callback': 60, 'private_method_watchers': 80}
+REQUIRED = {'copies': 1200, 'divergence_ops': 5000, 'copies_with_subobject': 400, 'pickle_copies': 800, 'slot_only_subobject_dependency_cases': 100, 'copies_inside_trigger_callback': 60, 'private_method_watchers': 80, 'copies_with_assignment_pending_on_original': 60}
 
 MOD = 'pvgen_c17'
 _st = {}
@@ -264,6 +264,7 @@ def run_case(idx, rng, P, rep):
     in_batch = rng.random() < 0.15
     desc['copied_inside_open_batch'] = in_batch
     in_trigger = not in_batch and rng.random() < 0.12
+    pending_calls = None
     desc['copied_inside_trigger_callback'] = in_trigger
     try:
         if in_trigger:
@@ -289,6 +290,13 @@ def run_case(idx, rng, P, rep):
           if not in_trigger:
               if in_batch:
                   rep.count('copies_inside_open_batch')
+                  if rng.random() < 0.5:
+                      # an assignment made inside the batch is still waiting to be announced on the original when the copy
+                      # is taken: the copy holds the new value, and has nothing waiting
+                      o.a = tokv()
+                      before = snapshot(o)
+                      pending_calls = list(o.calls)
+                      rep.count('copies_with_assignment_pending_on_original')
               # the copy may also be started from the sub-object of a cyclic pair (sub.owner is o): the parent copy is then
               # reached through the copied sub-object
               start = o
@@ -303,6 +311,8 @@ def run_case(idx, rng, P, rep):
                   rep.count('pickle_copies')
               if start is not o:
                   c = c.owner
+        if pending_calls is not None:
+            o.calls[:] = pending_calls        # (leaving the batch announced the assignment on the original)
     except Exception as e:   # noqa: BLE001
         sub = '/with-subobject-dependency' if flags['sub'] else ''
         if via_sub[0]:
